@@ -1,4 +1,5 @@
 import DcmVerif.Proofs.Chains
+import DcmVerif.Proofs.Produced
 import DcmVerif.Proofs.Ext
 /-! Property theorems for C07. Statements only; proofs are by reference to `Proofs/`. -/
 set_option autoImplicit false
@@ -123,5 +124,40 @@ theorem split_chain_valid (null : α) (ops : List Chain.SubOp) (sh : Shp) (ks : 
     (h : Chain.runOps null sh ks ops = some (sh', res)) :
     Chain.Good sh' ∧ ∃ ks', res = .ok ks' ∧ ValidK sh' ks' :=
   Chain.chain_valid null ops sh ks hg hv sh' res h
+
+/-- **closure under every combination of splits and merges (one key):** whatever is obtained from
+    valid key states by pieces of slice / time / vector splits and by slice / time / vector merges,
+    nested in any way and with any number of inputs (`Chain.Produced`), is valid for a consistent
+    shape -/
+theorem produced_valid (null : α) (sh : Shp) (ks : KeyState α) (h : Chain.Produced null sh ks) :
+    Chain.Good sh ∧ ValidK sh ks :=
+  Chain.produced_valid null sh ks h
+
+/-- … and the operations cannot fail on such states, so the set is closed under the operations
+    themselves: slice split, -/
+theorem produced_slice_split_total (null : α) (sh : Shp) (ks : KeyState α)
+    (h : Chain.Produced null sh ks) (i : Nat) (hi : i < sh.S) :
+    ∃ p, subsetSliceK null sh ks i = .ok p ∧ Chain.Produced null (sliceSubsetShp sh) p :=
+  Chain.produced_slice_ok null sh ks h i hi
+
+/-- time split, -/
+theorem produced_time_split_total (null : α) (sh : Shp) (ks : KeyState α)
+    (h : Chain.Produced null sh ks) (h45 : sh.nd = 4 ∨ sh.nd = 5) (i : Nat) (hi : i < sh.T) :
+    ∃ p, subsetTimeK null sh ks i = .ok p ∧ Chain.Produced null (timeSubsetShp sh) p :=
+  Chain.produced_time_ok null sh ks h h45 i hi
+
+/-- vector split, -/
+theorem produced_vector_split_total (null : α) (sh : Shp) (ks : KeyState α)
+    (h : Chain.Produced null sh ks) (h5 : sh.nd = 5) (i : Nat) (hi : i < sh.V) :
+    ∃ p, subsetVecK null sh ks i = .ok p ∧ Chain.Produced null (vecSubsetShp sh) p :=
+  Chain.produced_vec_ok null sh ks h h5 i hi
+
+/-- slice merge of any number of produced pieces -/
+theorem produced_slice_merge_total (null : α) (sh1 : Shp) (hg : Chain.Good sh1)
+    (a : KeyState α) (rest : List (KeyState α))
+    (hin : ∀ b, b ∈ a :: rest → Chain.Produced null { sh1 with S := 1 } b) :
+    ∃ r, mergeSliceK null sh1 (a :: rest) = .ok r ∧
+      Chain.Produced null { sh1 with S := (a :: rest).length } r :=
+  Chain.produced_mergeSlice_ok null sh1 hg a rest hin
 
 end C07
